@@ -117,9 +117,11 @@ func (p *proc) kill() {
 	p.inPush = false
 }
 
-func (p *proc) readVerdict() string {
+func (p *proc) readVerdict() string { return readVerdictFrom(p.out, p.name, p.argv[0] == "cvc5") }
+
+func readVerdictFrom(out *bufio.Reader, pname string, isCvc5 bool) string {
 	for {
-		l, err := p.out.ReadString('\n')
+		l, err := out.ReadString('\n')
 		if err != nil {
 			return "dead"
 		}
@@ -132,14 +134,14 @@ func (p *proc) readVerdict() string {
 		}
 		if strings.HasPrefix(l, "(error") {
 			if !strings.Contains(l, "timeout") && !strings.Contains(l, "interrupted") {
-				fmt.Fprintf(os.Stderr, "solver %s error: %s\n", p.name, l)
+				fmt.Fprintf(os.Stderr, "solver %s error: %s\n", pname, l)
 			}
 			// z3 prints the error and then still a verdict for check-sat; cvc5 does not.
-			if p.argv[0] == "cvc5" {
+			if isCvc5 {
 				return "unknown"
 			}
 			for {
-				l2, err := p.out.ReadString('\n')
+				l2, err := out.ReadString('\n')
 				l2 = strings.TrimSpace(l2)
 				if err != nil || l2 == "sat" || l2 == "unsat" || l2 == "unknown" {
 					break
@@ -282,7 +284,7 @@ func (s *Solver) CheckT(limitMs int) string {
 			continue
 		}
 		sent++
-		go func(i int, p *proc) { ch <- ans{i, p.readVerdict()} }(i, p)
+		go func(i int, rd *bufio.Reader, pname string, isCvc5 bool) { ch <- ans{i, readVerdictFrom(rd, pname, isCvc5)} }(i, p.out, p.name, p.argv[0] == "cvc5")
 	}
 	res := "unknown"
 	got := map[int]string{}
